@@ -278,3 +278,46 @@ def decorated_methods(P, R, rule, funcs, note=''):
         for u in f.tags.get('unresolved', []):
             R.abstain(rule, f, None, f'decorator `{u}` of {f.qualname} could not be resolved; its wrapper is not analysed', construct=f'{f.qualname} @{u}')
     return n
+
+
+_FWD_CACHE = {}
+
+
+def sub_results(P, R, prop, tier='quick'):
+    """Obligations of another property's rule module on the same program (computed once per process and program)."""
+    import importlib
+    from model import AnalysisError
+    k = (id(P), prop)
+    if k not in _FWD_CACHE:
+        mod = importlib.import_module(f'rules.{prop}')
+        sub = type(R)(prop, 'quick')
+        err = None
+        _FWD_CACHE[k] = (sub, None)          # recursion guard: a cycle sees the (still empty) results
+        try:
+            mod.run(P, sub, 'quick')
+        except AnalysisError as e:
+            err = e
+        _FWD_CACHE[k] = (sub, err)
+    return _FWD_CACHE[k]
+
+
+def forward(P, R, src_prop, rules, dst_rule, why, skip_constructs=(), floor=1):
+    """Property-level dependency: the obligations `rules` (rule ids or prefixes) of `src_prop` are necessary for this property
+    too (`why`); they are reported again under `dst_rule`.  A known finding of the source property is not forwarded (it is
+    listed under the source's own rule ids)."""
+    import report
+    sub, err = sub_results(P, R, src_prop)
+    known = {(k_['rule'], k_['site'], k_['construct']) for k_ in report.load_known() if k_.get('status') == 'known'}
+    n = 0
+    for o in sub.obs:
+        if not any(o.rule == r_ or (r_.endswith('*') and o.rule.startswith(r_[:-1])) for r_ in rules):
+            continue
+        if o.key() in known or o.construct in skip_constructs:
+            continue
+        n += 1
+        ob = R._add(dst_rule, (o.path, o.site.split('::')[-1]), None, o.status, f'[{o.rule}] {why}: {o.detail}', construct=o.construct, nontrivial=o.nontrivial)
+        ob.line = o.line
+    if n < floor and err is None:
+        from model import AnalysisError
+        raise AnalysisError(f'{dst_rule}: only {n} obligations of {src_prop} {rules} to forward, expected at least {floor}')
+    return n
